@@ -7,10 +7,12 @@ FormatInt/FormatBool`, `influxql.FormatDuration`, the conversion switches of `bo
 duration()`, `abs/min/max`.
 Used by BOTH the model (`callFn`: the builtin's `Call` method is a thin wrapper around the library function)
 and the reference semantics (`refCall`); the correspondence run ties it to the real code and library.
+the rune-SET functions `strings.Trim/TrimLeft/TrimRight/ContainsAny/IndexAny/LastIndexAny` (the string and the
+cutset are decoded into runes as `for range` / `utf8.DecodeRune` do — an invalid or truncated encoding is one byte
+wide and IS the rune U+FFFD —, then: first / last rune that is a member, leading / trailing members removed).
 NOT defined here (answered by the library oracle of the harness): transcendental and rounding math, regex,
-time-zone functions, `humanBytes`, rune-SET string functions (`strTrim/TrimLeft/TrimRight`, `str*Any`),
-Unicode case mapping and white space (`strToUpper/ToLower/TrimSpace`), decimal↔float conversion
-(`float(string)`, `string(float)`), duration parsing (`duration(string)`).
+time-zone functions, `humanBytes`, Unicode case mapping and white space (`strToUpper/ToLower/TrimSpace`: Unicode
+tables), decimal↔float conversion (`float(string)`, `string(float)`), duration parsing (`duration(string)`).
 Core Lean only.
 -/
 import Kap.Model.C04Base
@@ -46,6 +48,65 @@ def runeCountAux : Nat → Bytes → Nat
 
 /-- `utf8.RuneCountInString`. -/
 def runeCount (s : Bytes) : Nat := runeCountAux s.length s
+
+/-- The first rune as a KEY that identifies its code point: the bytes of its encoding when that is valid (UTF-8 is
+injective on the encodings `runeWidth` accepts), and the encoding of U+FFFD (`utf8.RuneError`) for an invalid or
+truncated encoding (one byte wide) — in Go an invalid byte and a literal U+FFFD are the same rune. -/
+def runeKey (s : Bytes) : Bytes :=
+  match s with
+  | [] => []
+  | b0 :: _ => if runeWidth s == 1 && b0 ≥ 0x80 then [0xEF, 0xBF, 0xBD] else s.take (runeWidth s)
+
+def runesAux : Nat → Bytes → List (Bytes × Nat)
+  | 0, _ => []
+  | _ + 1, [] => []
+  | fuel + 1, s => (runeKey s, runeWidth s) :: runesAux fuel (s.drop (runeWidth s))
+
+/-- the runes of a string, each with its width in bytes, as `for range s` decodes them (`DecodeLastRuneInString`,
+used by the right-to-left scans, cuts any byte string into the same pieces). -/
+def runes (s : Bytes) : List (Bytes × Nat) := runesAux s.length s
+
+/-- is the rune (key) one of the runes of `chars`? (`strings.ContainsRune(chars, r)`) -/
+def inSet (chars : Bytes) (k : Bytes) : Bool := (runes chars).any (fun r => r.1 == k)
+
+/-- byte offset of the first rune satisfying `p`, scanning from offset `i`. -/
+def firstAt (p : Bytes → Bool) : List (Bytes × Nat) → Nat → Option Nat
+  | [], _ => none
+  | r :: rs, i => if p r.1 then some i else firstAt p rs (i + r.2)
+
+/-- byte offset of the last rune satisfying `p`. -/
+def lastAt (p : Bytes → Bool) : List (Bytes × Nat) → Nat → Option Nat → Option Nat
+  | [], _, acc => acc
+  | r :: rs, i, acc => lastAt p rs (i + r.2) (if p r.1 then some i else acc)
+
+/-- `strings.IndexAny`: byte offset of the first rune of `s` that is a rune of `chars`, −1 if none. -/
+def indexAny (s chars : Bytes) : Int :=
+  match firstAt (inSet chars) (runes s) 0 with
+  | some i => i
+  | none => -1
+
+/-- `strings.LastIndexAny`. -/
+def lastIndexAny (s chars : Bytes) : Int :=
+  match lastAt (inSet chars) (runes s) 0 none with
+  | some i => i
+  | none => -1
+
+/-- `strings.ContainsAny`. -/
+def containsAny (s chars : Bytes) : Bool := (firstAt (inSet chars) (runes s) 0).isSome
+
+/-- total width of the leading runes that are members. -/
+def leadWidth (p : Bytes → Bool) : List (Bytes × Nat) → Nat
+  | [] => 0
+  | r :: rs => if p r.1 then r.2 + leadWidth p rs else 0
+
+/-- `strings.TrimLeft(s, cutset)`: `s` without its leading runes that are runes of `cutset`. -/
+def trimLeft (s cutset : Bytes) : Bytes := s.drop (leadWidth (inSet cutset) (runes s))
+
+/-- `strings.TrimRight(s, cutset)`. -/
+def trimRight (s cutset : Bytes) : Bytes := s.take (s.length - leadWidth (inSet cutset) (runes s).reverse)
+
+/-- `strings.Trim(s, cutset)` (the library trims the right end first). -/
+def trim (s cutset : Bytes) : Bytes := trimLeft (trimRight s cutset) cutset
 
 /-- `strings.Index`: the first byte offset at which `sub` occurs, −1 if none (0 for the empty `sub`). -/
 def indexFrom (sub : Bytes) : Bytes → Nat → Option Nat
@@ -162,6 +223,12 @@ def strFn (fn : String) (args : List (Value F)) : Option (Option Bytes) :=
     match args with | [.str s, .str p] => some (some (trimSuffix s p)) | _ => some none
   else if fn = "strReplace" then
     match args with | [.str s, .str o, .str n, .int k] => some (some (replace s o n k)) | _ => some none
+  else if fn = "strTrim" then
+    match args with | [.str s, .str c] => some (some (trim s c)) | _ => some none
+  else if fn = "strTrimLeft" then
+    match args with | [.str s, .str c] => some (some (trimLeft s c)) | _ => some none
+  else if fn = "strTrimRight" then
+    match args with | [.str s, .str c] => some (some (trimRight s c)) | _ => some none
   else if fn = "string" then
     match args with
     | [.int i] => some (some (intDec i))
@@ -182,6 +249,10 @@ def intFn (fn : String) (args : List (Value F)) : Option (Option Int) :=
     match args with | [.str s, .str sub] => some (some (lastIndex s sub)) | _ => some none
   else if fn = "strCount" then
     match args with | [.str s, .str sub] => some (some (count s sub)) | _ => some none
+  else if fn = "strIndexAny" then
+    match args with | [.str s, .str c] => some (some (indexAny s c)) | _ => some none
+  else if fn = "strLastIndexAny" then
+    match args with | [.str s, .str c] => some (some (lastIndexAny s c)) | _ => some none
   else if fn = "int" then
     match args with
     | [.int i] => some (some i)
@@ -200,6 +271,8 @@ def boolFn (fn : String) (args : List (Value F)) : Option (Option Bool) :=
     match args with | [.str s, .str p] => some (some (hasPrefix s p)) | _ => some none
   else if fn = "strHasSuffix" then
     match args with | [.str s, .str p] => some (some (hasSuffix s p)) | _ => some none
+  else if fn = "strContainsAny" then
+    match args with | [.str s, .str c] => some (some (containsAny s c)) | _ => some none
   else if fn = "bool" then
     match args with
     | [.bool b] => some (some b)
@@ -262,9 +335,9 @@ end
 
 /-- the return type of the builtins defined above. -/
 def builtinRet (fn : String) : Option Ty :=
-  if ["strSubstring", "strTrimPrefix", "strTrimSuffix", "strReplace", "string"].contains fn then some .string
-  else if ["strLength", "strIndex", "strLastIndex", "strCount", "int"].contains fn then some .int
-  else if ["strContains", "strHasPrefix", "strHasSuffix", "bool"].contains fn then some .bool
+  if ["strSubstring", "strTrimPrefix", "strTrimSuffix", "strReplace", "strTrim", "strTrimLeft", "strTrimRight", "string"].contains fn then some .string
+  else if ["strLength", "strIndex", "strLastIndex", "strCount", "strIndexAny", "strLastIndexAny", "int"].contains fn then some .int
+  else if ["strContains", "strHasPrefix", "strHasSuffix", "strContainsAny", "bool"].contains fn then some .bool
   else if ["abs", "min", "max", "float"].contains fn then some .float
   else if fn = "duration" then some .duration
   else none
@@ -273,7 +346,8 @@ def builtinRet (fn : String) : Option Ty :=
 def nativeFns : List String :=
   ["count", "sigma", "spread", "if", "isPresent",
    "strSubstring", "strTrimPrefix", "strTrimSuffix", "strReplace", "string", "strLength", "strIndex", "strLastIndex",
-   "strCount", "int", "strContains", "strHasPrefix", "strHasSuffix", "bool", "abs", "min", "max", "float", "duration"]
+   "strCount", "int", "strContains", "strHasPrefix", "strHasSuffix", "bool", "abs", "min", "max", "float", "duration",
+   "strTrim", "strTrimLeft", "strTrimRight", "strContainsAny", "strIndexAny", "strLastIndexAny"]
 
 /-- builtins whose VALUE is an external library call answered by the harness (for `float`, `string`, `duration`:
 only the argument types not defined above — decimal↔float conversion and duration parsing). -/
@@ -281,8 +355,7 @@ def oracleFns : List String :=
   ["acos", "acosh", "asin", "asinh", "atan", "atan2", "atanh", "cbrt", "ceil", "cos", "cosh", "erf", "erfc", "exp", "exp2",
    "expm1", "floor", "gamma", "hypot", "j0", "j1", "jn", "log", "log10", "log1p", "log2", "logb", "mod", "pow", "pow10",
    "sin", "sinh", "sqrt", "tan", "tanh", "trunc", "y0", "y1", "yn",
-   "strContainsAny", "strIndexAny", "strLastIndexAny", "strToLower", "strToUpper", "strTrim", "strTrimLeft", "strTrimRight",
-   "strTrimSpace", "regexReplace", "unixNano", "minute", "hour", "weekday", "day", "month", "year", "humanBytes",
+   "strToLower", "strToUpper", "strTrimSpace", "regexReplace", "unixNano", "minute", "hour", "weekday", "day", "month", "year", "humanBytes",
    "float", "string", "duration"]
 
 /-- builtins that are neither (non-deterministic): calls to them are outside the model. -/
